@@ -277,6 +277,15 @@ func TestRPCHandlers(t *testing.T) {
 			var ids [][]byte
 			var highest int64 = -1
 			k := rapid.IntRange(1, 8).Draw(t, "ids")
+			// request sizes real peers send: fast sync offers 2*validators-1 ids (205 with 103 validators), and after a long own fork
+			// every shared id sits at the END of the list (added after seeded change C19-s: only the first 100 ids were looked up)
+			if i == 3 {
+				lead := rapid.SampledFrom([]int{9, 40, 99, 100, 101, 150, 204, 299}).Draw(t, "unknownLead")
+				for j := 0; j < lead; j++ {
+					ids = append(ids, append(bytes.Repeat([]byte{0xEE}, 30), byte(j>>8), byte(j)))
+				}
+				evid.R.Label(fmt.Sprintf("common-block-request-with-%d-unknown-ids-first", lead), 1)
+			}
 			for j := 0; j < k; j++ {
 				switch rapid.SampledFrom([]string{"chain", "chain", "unknown", "orphan"}).Draw(t, "idKind") {
 				case "chain":
